@@ -433,6 +433,83 @@ def n5(prog, rep, up, L):
               function=f.name, construct="completion")
 
 
+
+def n6_relational(prog, rep, up, L):
+    """The transfer window as values, decided relationally (sa/poly.py).  Pending-request invariant I: bufpos < buflen and
+    minlen <= buflen (the latter is the caller's side of the contract; netbuf_read's launches prove it as F4-fits).
+    Assumed when the handler is entered, shown to hold when the constructor registers it and whenever the handler re-arms,
+    and under it:
+      window    the kernel call gets buf + bufpos and buflen - bufpos >= 1 bytes
+      progress  after a positive answer n <= length the position is the old one plus n and stays <= buflen
+      report    the success completion reports the position, with max(minlen, 1) <= it <= buflen
+    so every byte the kernel transferred is counted once and nothing outside [buf, buf + buflen) is touched."""
+    from .. import poly
+    from ..poly import Lin
+    u = prog.unit(up)
+    sysc = SYSCALL[up]
+    f = [u.func(h) for h in L.handlers if any(True for _ in u.func(h).calls(sysc))][0]
+    sc = list(f.calls(sysc))[0]
+    decl = [e for e in f.all_elems() if e.cls == "DeclStmt" and e.decls and e.decls[0].get("ty", "").endswith("_cookie *")]
+    if not decl:
+        rep.defer_broken("N6: %s has no local request pointer" % f.name)
+        return
+    Cv = ("v", decl[0].decls[0]["name"], decl[0].decls[0]["id"])
+    fl = lambda n: Lin.var((".", ("*", Cv), n))
+    P0 = Lin.var(("$entry", "bufpos"))
+    inv = [("<", fl("bufpos"), fl("buflen")), ("<=", fl("minlen"), fl("buflen"))]
+
+    def contract(A, call, st, cs):
+        r = Lin.var(("$ret", A.f.name, call.pos))
+        n = A.lin(call.arg(2), st)
+        out = list(cs) + poly.cons(">=", r, Lin.const(-1))
+        if n is not None:
+            out += poly.cons("<=", r, n)
+        return out
+    quiet = {sysc, "events_network_register", "signal", "warnp", "warn0", "__errno_location", None} | set(L.handlers)
+    A = poly.Analysis(f, assume=inv + [("==", fl("bufpos"), P0)], quiet=quiet, post={sysc: contract},
+                      unsigned_terms={(".", ("*", Cv), n) for n in ("bufpos", "buflen", "minlen")} | {("$entry", "bufpos")}).run()
+    st = A.state_before(sc)
+    tgt, ln = A.lin(sc.arg(1), st), A.lin(sc.arg(2), st)
+    okw = tgt is not None and ln is not None and A.holds(st, "==", tgt, fl("buf") + fl("bufpos")) and A.holds(st, "==", ln, fl("buflen") - fl("bufpos")) and A.holds(st, ">=", ln, Lin.const(1))
+    rep.check(okw, "N6-window", "%s gets buf + bufpos and buflen - bufpos >= 1 bytes" % sysc, sc.where,
+              "target %s, length %s" % (tgt, ln), function=f.name, construct="window")
+    # completions: handler-like callees given the request and a byte count
+    nsucc = 0
+    for c in f.calls():
+        if c.callee in L.handlers and c.arg(1) is not None and norm(c.arg(1)) not in (("c", 0), ("c", -1)):
+            nsucc += 1
+            s2 = A.state_before(c)
+            v = A.lin(c.arg(1), s2)
+            ret = Lin.var(("$ret", f.name, sc.pos))
+            ok = v is not None and A.holds(s2, "==", v, P0 + ret) and A.holds(s2, ">=", v, fl("minlen")) and A.holds(s2, "<=", v, fl("buflen")) and (sysc != "recv" or A.holds(s2, ">=", v, Lin.const(1))) \
+                and A.holds(s2, "==", v, fl("bufpos"))
+            rep.check(ok, "N6-report", "the success completion reports the position: old position + the kernel's answer, within [max(minlen, 1), buflen]", c.where,
+                      "reported %s" % v, function=f.name, construct="report")
+    if nsucc != 1:
+        rep.bad("N6-report", "%s success completion" % f.name, f.loc, "expected exactly one completion carrying a byte count, found %d" % nsucc, function=f.name, construct="report-count")
+    # re-arm keeps the invariant
+    for c in f.calls("events_network_register"):
+        s2 = A.state_before(c)
+        rep.check(all(A.holds(s2, op, a, b) for op, a, b in inv), "N6-inv", "the pending-request invariant holds when %s re-arms" % f.name, c.where,
+                  "bufpos < buflen and minlen <= buflen must hold at the re-registration", function=f.name, construct="rearm-inv")
+    # the constructor establishes it (minlen <= buflen is the caller's obligation: assumed on its parameters)
+    ctor = u.func(UNITS[up][2])
+    pn = {p["name"]: ("v", p["name"], p["id"]) for p in ctor.params}
+    mn = [n for n in pn if n.startswith("min")]
+    if "buflen" not in pn or not mn:
+        rep.defer_broken("N6: constructor parameters buflen/min* not found in %s" % ctor.name)
+        return
+    # caller's side of the contract: minlen <= buflen, buflen != 0 (the constructor asserts the latter; with NDEBUG it is assumed)
+    Ac = poly.Analysis(ctor, assume=[("<=", Lin.var(pn[mn[0]]), Lin.var(pn["buflen"])), (">=", Lin.var(pn["buflen"]), Lin.const(1))], quiet={"events_network_register", "mpool_network_read_cookie_malloc", "mpool_network_write_cookie_malloc", None},
+                       unsigned_terms={pn["buflen"], pn[mn[0]]}).run()
+    for c in ctor.calls("events_network_register"):
+        s2 = Ac.state_before(c)
+        Cc = norm(c.arg(1))
+        flc = lambda n: Lin.var((".", ("*", Cc), n))
+        ok = Ac.holds(s2, "<", flc("bufpos"), flc("buflen")) and Ac.holds(s2, "<=", flc("minlen"), flc("buflen")) and Ac.holds(s2, "==", flc("bufpos"), Lin.const(0))
+        rep.check(ok, "N6-inv", "%s registers the request with position 0 < buflen" % ctor.name, c.where, "", function=ctor.name, construct="ctor-inv")
+
+
 def run(tier):
     rep = report.Report("C06", tier,
         "Decided on every path of every handler of network_read/write/accept/connect: exactly one disposition per path "
@@ -441,7 +518,10 @@ def run(tier):
         "(CANCELS, SLOT); send() has MSG_NOSIGNAL (N1); the errno set routed to the re-arm is exactly the would-block set and "
         "recv()==0 is end-of-stream (N2); the re-arm repeats the initial registration (N3); connect closes, advances and retries "
         "through one helper and schedules one completion on exhaustion (N4); the kernel call's window is buf+bufpos/buflen-bufpos, "
-        "bufpos advances by exactly the result, completion reports bufpos after bufpos>=minlen (N5). "
+        "bufpos advances by exactly the result, completion reports bufpos after bufpos>=minlen (N5); the same as values, proved "
+        "relationally under the pending-request invariant bufpos < buflen, minlen <= buflen: the kernel call gets buf+bufpos and "
+        "buflen-bufpos >= 1 bytes, the count reported is old position + answer within [max(minlen,1), buflen], the invariant holds at "
+        "the constructor's registration and at every re-arm (N6). "
         "Not decided: kernel behaviour, arithmetic facts beyond these shapes (e.g. that bufpos never exceeds buflen follows from "
         "N5 plus recv/send's contract, which is trusted).",
         trusted=["recv/send/accept/connect contracts", "REARM/CANCEL tables in sa/lin.py"])
@@ -459,6 +539,7 @@ def run(tier):
                 n2_n3(prog, rep, up, L)
             if up in ("network/network_read.c", "network/network_write.c"):
                 n5(prog, rep, up, L)
+                n6_relational(prog, rep, up, L)
         n1(prog, rep)
         n4(prog, rep)
     n = len(configs)
